@@ -1,3 +1,147 @@
-"""Thorough tier: placeholder until the sweep / self-test modules are wired in."""
+"""Thorough tier = quick obligations
+                 + package-wide sweep of the generic rules (non-anchored hits are NOTEs: they belong
+                   to no listed property, are recorded in the evidence and never fail a run)
+                 + mutation self-test of this property's checker (seeded variants must be reported,
+                   behaviour-preserving twins must stay silent), 16 workers, in-memory overlays.
+
+A failing self-test is a defect of the *checker*: the run ends ANALYSIS-ERROR (exit 2), never as a
+VIOLATION of the property."""
+from __future__ import annotations
+
+import ast
+import os
+import time
+from typing import Dict, List
+
+from .core import call_name, dotted, norm, walk_local, local_defs
+from .rules import matcher as M
+from .rules import walk as W
+from .rules.memo import id_calls
+from .rules.select import selections
+
+SWEEPS = {
+    "R2": {"C06", "C07", "C11", "C12", "C13", "C18"},
+    "R5": {"C19", "C20", "C16", "C17"},
+    "R1": {"C07", "C14", "C18", "C08"},
+    "R8": {"C14"},
+    "R10": {"C17"},
+    "R11": {"C05", "C11", "C08"},
+    "R14": {"C08", "C18"},
+    "R4": {"C08", "C16", "C18"},
+}
+
+
+def sweep(prop: str, rep) -> Dict[str, list]:
+    repo = rep.repo
+    out: Dict[str, list] = {}
+    funcs = [fi for fi in repo.all_funcs() if ".<locals>." not in fi.qual]
+    if prop in SWEEPS["R2"]:
+        rows = []
+        for fi in funcs:
+            try:
+                ss = M.sites(fi)
+            except Exception:
+                continue
+            if not ss:
+                continue
+            defs = local_defs(fi.node, into_nested=True)
+            for s in ss:
+                r1, r2 = M.role(fi, s.g1, defs), M.role(fi, s.g2, defs)
+                meths = sorted({m for m, _ in s.methods})
+                rows.append({"site": f"{fi.key}:{s.call.lineno}", "G1": norm(s.g1)[:40], "role_G1": r1, "G2": norm(s.g2)[:40], "role_G2": r2, "methods": meths})
+                if any(m in M.SUB_METHODS for m in meths) and r1 == "PATTERN" and r2 == "HOST":
+                    rep.note(f"sweep R2: {fi.key}:{s.call.lineno} asks a subgraph question with the pattern as G1 (not anchored by {prop})")
+        out["matcher_sites"] = rows
+    if prop in SWEEPS["R5"]:
+        rows = []
+        try:
+            table = W.writer_table(repo)
+        except Exception:
+            table = {}
+        for fi in funcs:
+            if not fi.rel.startswith("synkit/CRN/"):
+                continue
+            for w in W.walks(fi, graph_names=("G", "B", "bip", "graph")):
+                for role, cmp_ in w.roles_tested:
+                    want = table.get(role, {}).get("dir")
+                    row = {"site": f"{fi.key}:{w.loop.lineno}", "walk": f"{w.graph}.{w.method}({w.node})", "role": role,
+                           "walk_direction": w.direction, "writer_direction": want}
+                    rows.append(row)
+                    if want and want != w.direction:
+                        rep.note(f"sweep R5: {row['site']} walks {w.direction}-arcs but tests role '{role}' (dead branch on a DiGraph; not anchored by {prop})")
+        out["directed_walks"] = rows
+    if prop in SWEEPS["R1"]:
+        rows = []
+        for fi in funcs:
+            for c in id_calls(fi.node):
+                tmp = not isinstance(c.args[0], (ast.Name, ast.Attribute))
+                rows.append({"site": f"{fi.key}:{c.lineno}", "expr": norm(c)[:60], "temporary": tmp})
+                if tmp:
+                    rep.note(f"sweep R1: id() of a temporary at {fi.key}:{c.lineno}")
+        out["id_uses"] = rows
+    if prop in SWEEPS["R4"]:
+        rows = []
+        for fi in funcs:
+            for c in walk_local(fi.node, into_nested=True):
+                if isinstance(c, ast.Call) and isinstance(c.func, ast.Name) and c.func.id == "hash" and c.args:
+                    a = c.args[0]
+                    # hash(self.x) inside __hash__ is the intended use
+                    if fi.qual.endswith("__hash__"):
+                        continue
+                    rows.append({"site": f"{fi.key}:{c.lineno}", "expr": norm(c)[:70]})
+        out["builtin_hash_on_data"] = rows
+    if prop in SWEEPS["R10"]:
+        rows = []
+        for fi in funcs:
+            for c in walk_local(fi.node, into_nested=True):
+                if isinstance(c, ast.Call) and call_name(c) == "linprog":
+                    rows.append({"site": f"{fi.key}:{c.lineno}", "call": norm(c)[:80]})
+        out["linprog_sites"] = rows
+    if prop in SWEEPS["R11"]:
+        rows = []
+        for fi in funcs:
+            if not (fi.rel.startswith("synkit/Graph/Matcher/") or fi.rel.startswith("synkit/Graph/Canon/")):
+                continue
+            for node, kind, tie in selections(fi):
+                rows.append({"site": f"{fi.key}:{getattr(node, 'lineno', 0)}", "kind": kind, "tie_break": tie})
+        out["selections_in_matcher_and_canon"] = rows
+    if prop in SWEEPS["R14"]:
+        from .rules import canon as C
+        rows = []
+        for fi in funcs:
+            for dc, src in C.mapping_sites(fi):
+                defs = local_defs(fi.node)
+                cls, why = C.classify_order(defs, src)
+                rows.append({"site": f"{fi.key}:{dc.lineno}", "offset": C.offset_of(dc), "class": cls, "why": why[:80]})
+        out["relabel_sites"] = rows
+    return out
+
+
 def extend(prop, rep, mod, code, args):
-    return code
+    t0 = time.time()
+    try:
+        rep.extra["sweep"] = sweep(prop, rep)
+    except Exception as exc:  # the sweep is informational
+        rep.extra["sweep_error"] = repr(exc)
+    for n in rep.notes:
+        pass
+    if code != 0:
+        return code  # a violation of the property on this tree: report it, do not self-test on top of it
+    from .selftest.run import selftest
+    res = selftest([prop], root=rep.repo.root, jobs=getattr(args, "jobs", 16))
+    summary = {"variants": len(res), "ok": sum(1 for r in res if r[3] == "ok"), "skipped": sum(1 for r in res if r[3] == "skipped"),
+               "failing": [f"{r[1]} {r[3]} {r[2]} :: {r[4][:160]}" for r in res if r[3] not in ("ok", "skipped")],
+               "mutants_reported": [f"{r[2]} -> {r[4][:120]}" for r in res if r[1] == "mutant" and r[3] == "ok"],
+               "twins_silent": [r[2] for r in res if r[1] == "twin" and r[3] == "ok"],
+               "skipped_names": [f"{r[2]} ({r[4]})" for r in res if r[3] == "skipped"]}
+    rep.extra["selftest"] = summary
+    rep.extra["thorough_wall_s"] = round(time.time() - t0, 2)
+    for n in rep.notes:
+        print(f"NOTE: {n}")
+    print(f"{prop} [thorough] sweep: " + ", ".join(f"{k}={len(v)}" for k, v in rep.extra.get("sweep", {}).items()))
+    print(f"{prop} [thorough] self-test: {summary['variants']} variants, {summary['ok']} ok, {summary['skipped']} skipped, {len(summary['failing'])} failing")
+    if summary["failing"]:
+        for f in summary["failing"]:
+            print(f"ANALYSIS-ERROR property={prop} self-test: {f}")
+        return 2
+    return 0
